@@ -199,16 +199,25 @@ def r3_grow(ctx):
     # or the alignments are compared, on every path into the in-place branch
     if inplace:
         tested = False
+        wrong_mask = None
         for S2, al in g.constraints(inplace[0].block):
             d = sh(ne(g.deep(g.blocks[S2]["t"]["d"]))).replace(" ", "")
-            if "align(new_layout)" in d and ("addr(" in d or "align(old_layout)" in d or "align_offset(" in d or "is_aligned_to(" in d):
+            if "align(new_layout)" in d and ("align(old_layout)" in d or "align_offset(" in d or "is_aligned_to(" in d):
                 tested = True
+            if "align(new_layout)" in d and "addr(" in d:
+                # an address test has to use the low-bit mask align - 1 (or a remainder): `addr & align` looks at one bit
+                if re.search(r"BitAnd\(addr\([^)]*\)\)?,Sub\(align\(new_layout\),1\)\)", d) or re.search(r"Rem\(addr\(.*\),align\(new_layout\)\)", d):
+                    tested = True
+                else:
+                    wrong_mask = d
         for op, x, y, S2 in cmp_facts(g, inplace[0].block):
             t = (sh(x) + " " + sh(y)).replace(" ", "")
             if "align(new_layout)" in t and ("align(old_layout)" in t or "addr(" in t):
                 tested = True
         if tested:
             ctx.ok("grow|in-place|alignment", g.where(inplace[0].block), "in place only when the block's address fits new_layout.align()")
+        elif wrong_mask:
+            ctx.bad("grow|in-place|alignment|mask", g.where(inplace[0].block), "grow tests the block's address with `%s`: that is not the low-bit mask align - 1, so an address with low bits set but that one bit clear counts as aligned and the block is returned misaligned" % wrong_mask[:70])
         else:
             ctx.bad("grow|in-place|alignment", g.where(inplace[0].block), "grow extends the last block in place without looking at new_layout.align(): growing to a stricter alignment returns the old, misaligned address (a debug_assert catches it in debug builds only)")
     tail_labels = [l for l, _ in g.succ[S] if l != 0]
@@ -233,7 +242,10 @@ def r3_grow(ctx):
         ctx.touch(z)
         wb = [c for c in z.calls() if (c.callee or "").endswith("write_bytes")]
         base = [c for c in z.calls() if (c.callee or "").split("::")[-1] == what]
-        if wb and base and z.dominates(base[0].block, wb[0].block) and wb[0].args[1].get("int") == 0:
+        always = bool(wb) and bool(base) and z.must_pass([base[0].block], {wb[0].block}, targets=[b for b in ok_returns(z)] or None)[0]
+        if wb and base and z.dominates(base[0].block, wb[0].block) and wb[0].args[1].get("int") == 0 and not always:
+            ctx.bad("%s|zeroes|conditionally" % fid.split("::")[-1], z.where(wb[0].block), "%s skips the zero fill on some successful paths: committed-but-recycled memory (released by reset, or poisoned in debug builds) is handed out as `zeroed`" % fid.split("::")[-1])
+        elif wb and base and z.dominates(base[0].block, wb[0].block) and wb[0].args[1].get("int") == 0:
             ctx.ok("%s|zeroes" % fid.split("::")[-1], z.where(wb[0].block), "write_bytes(0, ..) after the allocation")
         else:
             ctx.bad("%s|zeroes" % fid.split("::")[-1], z.where(), "%s no longer zero-fills after allocating" % fid.split("::")[-1])
@@ -310,6 +322,26 @@ def r5_scoped_reset(ctx):
         ctx.ok("drop|reset-then-decommit", dr.where(), "reset(self.offset) then decommit()")
     else:
         ctx.bad("drop|reset-then-decommit", dr.where(), "ScratchArena::drop no longer resets to its creation offset before decommitting")
+    # the mark a scratch borrow resets to is the watermark at the moment of the borrow, to the byte: a mark rounded *down*
+    # gives back the tail of the block directly below it (poisoned on release, overlapped by the next allocation)
+    k = 0
+    for fid, g in sorted(ctx.lib.fns.items()):
+        if not fid.startswith("arena::scratch::ScratchArena") or not fid.endswith("::new"):
+            continue
+        for b in sorted(g.live):
+            for st in g.blocks[b]["s"]:
+                rv = st["rv"]
+                if rv["k"] == "agg" and str(rv.get("adt", "")).endswith("ScratchArena"):
+                    flds = [f[0] for f in ctx.lib.adt("arena::scratch::ScratchArena")["variants"][0]["fields"]]
+                    vals = {f: sh(ne(g.deep(o, 10))).replace(" ", "") for f, o in zip(flds, rv["ops"])}
+                    k += 1
+                    ctx.touch(g)
+                    mark = vals.get("offset", "?")
+                    if re.fullmatch(r"offset\((\*?arena|self\.arena|arena)\)", mark):
+                        ctx.ok("scratch|mark-is-the-watermark", g.where(b), "offset = arena.offset()")
+                    else:
+                        ctx.bad("scratch|mark|%s" % mark[:30], g.where(b), "a scratch borrow records `%s` as the mark it will reset to, not the arena's watermark: whatever lies between the two belongs to a live block of the lender and is released with the borrow" % mark[:60])
+    ctx.floor("scratch borrows that record a mark", k, 1)
     de = ctx.need(B + "decommit")
     ctx.touch(de)
     ws = [c for c in de.calls() if (c.callee or "").split("::")[-1] in ("set", "replace") and sh(ne(de.deep(c.args[0]))) == "self.commit"]
@@ -648,7 +680,42 @@ def r12_alignment_is_a_property_of_the_address(ctx):
         ctx.bad("alignment|offset-not-address", ar.where(b), "alloc_raw aligns the offset (`%s`), not the address: for an alignment above the page size the block is misaligned whenever the reservation's base is not a multiple of it (a 64 KiB-aligned request in a 256 KiB arena is off by 32 KiB)" % t[:70])
 
 
-RULES = [("C11-R1", r1_no_out_of_bounds_block), ("C11-R2", r2_who_writes_cursor), ("C11-R3", r3_grow), ("C11-R4", r4_debug_wrapper), ("C11-R10", r10_raw_writes_end_inside_the_committed_region), ("C11-R11", r11_growth_is_reserved_before_the_raw_copy), ("C11-R12", r12_alignment_is_a_property_of_the_address),
+def r13_the_end_of_a_request_cannot_wrap(ctx):
+    """`A request that does not fit fails cleanly`: the size is the caller's (alloc_uninit_slice::<u8>(usize::MAX - 50) reaches
+    alloc_raw with it), so beg + bytes is computed with overflow detection whose failure is the allocation error - a plain `+`
+    panics in a debug build and *wraps* in the release profile, where the wrapped end lies below the commit mark, the request
+    `succeeds`, the caller gets a block of 2^64 bytes and the watermark moves backwards over live data.  Likewise the commit
+    mark is rounded up from `end` only after `end` has been compared with the capacity."""
+    ar = ctx.need(B + "alloc_raw")
+    ctx.touch(ar)
+    bump = ar.calls_to(B + "alloc_raw_bump")
+    if not bump:
+        ctx.bad("end|anchor", ar.where(), "alloc_raw no longer delegates to alloc_raw_bump")
+        return
+    e = ne(ar.deep(bump[0].args[2], 30))
+    t = sh(e).replace(" ", "")
+    checked = "checked_add(" in t and ("ok_or(" in t or "unwrap(" in t or "expect(" in t or "branch(" in t)
+    if checked:
+        ctx.ok("end|checked-sum", ar.where(bump[0].block), "end = beg.checked_add(bytes), failure is the allocation error")
+    else:
+        ctx.bad("end|sum-can-wrap", ar.where(bump[0].block), "alloc_raw computes the end of the block as `%s` with an operator that wraps when overflow checks are off (the release profile): a request of nearly usize::MAX bytes wraps to an end below the commit mark and is served - a block of 2^64 bytes over live data - instead of failing" % t[-60:])
+    ab = ctx.need(B + "alloc_raw_bump")
+    ctx.touch(ab)
+    rounded = None
+    for b in sorted(ab.live):
+        for st in ab.blocks[b]["s"]:
+            if st["rv"]["k"] == "bin" and st["rv"]["op"] == "BitAnd":
+                rounded = b
+    if rounded is None:
+        return
+    guarded = any(op in ("Le", "Lt") and sh(x) == "end" and "capacity" in sh(y) for op, x, y, S in cmp_facts(ab, rounded)) or any("checked" in (c.callee or "") or "next_multiple_of" in (c.callee or "") for c in ab.calls() if c.block == rounded or ab.dominates(c.block, rounded))
+    if guarded:
+        ctx.ok("commit-rounding|after-capacity-test", ab.where(rounded), "end <= capacity before it is rounded up to the chunk size")
+    else:
+        ctx.bad("commit-rounding|can-wrap", ab.where(rounded), "alloc_raw_bump rounds `end` up to the chunk size before anything has compared it with the capacity: for an end within 64 KiB of usize::MAX the rounding wraps to 0, passes the capacity test and the request is served")
+
+
+RULES = [("C11-R1", r1_no_out_of_bounds_block), ("C11-R2", r2_who_writes_cursor), ("C11-R3", r3_grow), ("C11-R4", r4_debug_wrapper), ("C11-R10", r10_raw_writes_end_inside_the_committed_region), ("C11-R11", r11_growth_is_reserved_before_the_raw_copy), ("C11-R12", r12_alignment_is_a_property_of_the_address), ("C11-R13", r13_the_end_of_a_request_cannot_wrap),
          ("C11-R5", r5_scoped_reset), ("C11-R6", r6_roundings), ("C11-R7", r7_typed_front_ends), ("C11-R8", r8_watermark_arithmetic),
          ("C11-R9", r9_os_failure_values)]
 
